@@ -1,4 +1,6 @@
 
+val negb : bool -> bool
+
 type nat =
 | O
 | S of nat
@@ -16,11 +18,22 @@ val compOpp : comparison -> comparison
 
 val add : nat -> nat -> nat
 
+module Nat :
+ sig
+  val eqb : nat -> nat -> bool
+
+  val leb : nat -> nat -> bool
+ end
+
 val nth : nat -> 'a1 list -> 'a1 -> 'a1
 
 val rev : 'a1 list -> 'a1 list
 
 val map : ('a1 -> 'a2) -> 'a1 list -> 'a2 list
+
+val fold_right : ('a2 -> 'a1 -> 'a1) -> 'a1 -> 'a2 list -> 'a1
+
+val existsb : ('a1 -> bool) -> 'a1 list -> bool
 
 val skipn : nat -> 'a1 list -> 'a1 list
 
@@ -247,3 +260,43 @@ val alpha : z -> z
 val rfc4648 : z list -> z list
 
 val strip_padding : z list -> z list
+
+val split_at : z -> z list -> z list -> z list list * z list
+
+val strip_cr : z list -> z list
+
+val records : z -> bool -> z list -> z list list
+
+val docenc_encode_strip_cr : bool
+
+val docenc_decode_strip_cr : bool
+
+val docenc_indices_unique : bool
+
+val docenc_rejects_index_zero : bool
+
+type tres =
+| TOk of z list
+| TAbort
+| TFuel
+| TUsage
+
+val insert_sorted : nat -> nat list -> nat list
+
+val sort_nat : nat list -> nat list
+
+val uniq_adjacent : nat list -> nat list
+
+val norm_indices : nat list -> nat list
+
+val is_nil : 'a1 list -> bool
+
+val dec_docs : bool -> z -> z list list -> nat -> nat list -> tres
+
+val decode_tool : z -> nat list -> z list -> tres
+
+val take_doc : bool -> z list list -> z list -> (z list * z list list) * bool
+
+val enc_docs : nat -> bool -> bool -> z list list -> nat -> nat list -> tres
+
+val encode_tool : z -> nat list -> z list -> tres
